@@ -149,6 +149,11 @@ def violations(alg, op):
             yield ("sender-curve", f"{sspec[0]}:{sspec[1]}", good, {"_sender": list(sspec)}, True)
         # the sender key is a key of the JWE operation too: declared for signatures it is unsuitable
         yield ("sender-use", "sig", good, {"_sender_use": "sig"}, True)
+        # ... also when it is an entry of a sender key set that the skid header names
+        yield ("sender-use", "sig-in-set", good, {"_sender_use": "sig", "_sender_set": True}, True)
+    if alg in rjwe.ECDH_1PU and op == "decrypt":
+        yield ("sender-use", "sig", good, {"_sender_use": "sig"}, True)
+        yield ("sender-use", "sig-in-set", good, {"_sender_use": "sig", "_sender_set": True}, True)
     # --- private material
     if op in ("sign", "decrypt") and kty != "oct":
         yield ("private", "public-key", good, None, False)
@@ -215,10 +220,10 @@ def enc_for(alg):
     return "A128CBC-HS256" if alg.startswith("ECDH-1PU+") else "A128GCM"
 
 
-def jwe_produce(alg, entry, key, keymode, sender):
+def jwe_produce(alg, entry, key, keymode, sender, extra=None):
     from joserfc import jwe, jwt
     enc = enc_for(alg)
-    hdr = {"alg": alg, "enc": enc}
+    hdr = {"alg": alg, "enc": enc, **(extra or {})}
     if alg in rjwe.PBES2:
         hdr["p2c"] = 8
     ka = keyarg(key, keymode)
@@ -246,13 +251,13 @@ def jwe_consume(alg, entry, token, key, keymode, sender):
     return jwe.decrypt_json(token, ka, algorithms=jweplan.ALL_NAMES, sender_key=sender)
 
 
-def jwe_mint(alg, entry, refkey, sender_ref, seed):
+def jwe_mint(alg, entry, refkey, sender_ref, seed, extra=None):
     enc = enc_for(alg)
     ser = "compact" if entry in ("compact", "jwt") else "flattened" if entry.startswith("flattened") else "general"
     rec = {"alg": alg, "key": gk.key_to_record(refkey), "header": None, "kid": None}
     if alg in rjwe.PBES2:
         rec["p2c"], rec["p2s"] = 8, "0011223344556677"
-    plan = {"ser": ser, "enc": enc, "zip": None, "plaintext_hex": b'{"a":1}'.hex(), "aad_hex": None, "protected": {"alg": alg, "enc": enc},
+    plan = {"ser": ser, "enc": enc, "zip": None, "plaintext_hex": b'{"a":1}'.hex(), "aad_hex": None, "protected": {"alg": alg, "enc": enc, **(extra or {})},
             "unprotected": None, "recipients": [rec], "sender": gk.key_to_record(sender_ref) if sender_ref else None, "place": "protected"}
     tok, _ = jweplan.ref_encrypt(plan, seed, ("canonical", 0))
     return tok
@@ -294,15 +299,28 @@ def run_cell(cell) -> dict:
     good_ref = make_key(suitable_spec(alg), seed)
     bad_ref = make_key(tuple(cell["keyspec"]), seed) if tuple(cell["keyspec"]) != suitable_spec(alg) else good_ref
     sender_ref = make_key(("EC", "P-256"), seed + 1) if alg in rjwe.ECDH_1PU else None
-    bad_sender = None
+    bad_sender = good_sender = sender_extra = None
     if cell["clause"] == "sender-curve":
         bad_sender = jkey(make_key(tuple(cell["params"]["_sender"]), seed + 2), "dict", True)
         cell = dict(cell, params=None)
     elif cell["clause"] == "sender-use":
-        bad_sender = jkey(sender_ref, "dict", True, {"use": cell["params"]["_sender_use"]})
+        from joserfc.jwk import KeySet
+        priv = op == "encrypt"
+        src = sender_ref if priv else rk.public_of(sender_ref)
+        if cell["params"].get("_sender_set"):
+            # a published-JWKS-like sender set: another key and the real sender key, which the skid header names
+            osrc = make_key(("EC", "P-256"), seed + 5)
+            osrc = osrc if priv else rk.public_of(osrc)
+            bad_sender = KeySet([jkey(osrc, "dict", priv, {"kid": "s-other"}), jkey(src, "dict", priv, {"kid": "s-1", "use": cell["params"]["_sender_use"]})])
+            good_sender = KeySet([jkey(osrc, "dict", priv, {"kid": "s-other"}), jkey(src, "dict", priv, {"kid": "s-1"})])
+            sender_extra = {"skid": "s-1"}
+        else:
+            bad_sender = jkey(src, "dict", priv, {"use": cell["params"]["_sender_use"]})
         cell = dict(cell, params=None)
     sender_priv = jkey(sender_ref, "dict", True) if sender_ref else None
     sender_pub = jkey(rk.public_of(sender_ref), "dict", False) if sender_ref else None
+    if good_sender is not None:
+        sender_priv = sender_pub = good_sender
     params = cell["params"]
     f = {}
     where = f"{alg}:{op}:{entry}"
@@ -321,7 +339,7 @@ def run_cell(cell) -> dict:
                 good = build(good_ref, natural_private, None)
                 if bad_sender is not None:
                     # same (suitable) recipient key for both calls; only the sender key differs
-                    call = lambda k: jwe_produce(alg, entry, good, keymode, bad_sender if k is bad else sender_priv)  # noqa
+                    call = lambda k: jwe_produce(alg, entry, good, keymode, bad_sender if k is bad else sender_priv, sender_extra)  # noqa
                 else:
                     call = (lambda k: jws_produce(alg, entry, k, keymode)) if jws_ else (lambda k: jwe_produce(alg, entry, k, keymode, sender_priv))
                 token = None
@@ -338,11 +356,14 @@ def run_cell(cell) -> dict:
                 elif cell["clause"] in ("kty", "curve"):
                     return {"_skip": "consume-side kty/curve cells are vacuous (another key cannot verify anyway)"}
                 else:
-                    token = jws_mint(alg, entry, good_ref) if jws_ else jwe_mint(alg, entry, good_ref, sender_ref, seed)
+                    token = jws_mint(alg, entry, good_ref) if jws_ else jwe_mint(alg, entry, good_ref, sender_ref, seed, sender_extra)
                 bad = build(bad_ref, want_private, params)
                 good = build(good_ref, natural_private, None)
-                call = (lambda k: jws_consume(alg, entry, copy.deepcopy(token), k, keymode)) if jws_ else \
-                       (lambda k: jwe_consume(alg, entry, copy.deepcopy(token), k, keymode, sender_pub))
+                if bad_sender is not None:
+                    call = lambda k: jwe_consume(alg, entry, copy.deepcopy(token), good, keymode, bad_sender if k is bad else sender_pub)  # noqa
+                else:
+                    call = (lambda k: jws_consume(alg, entry, copy.deepcopy(token), k, keymode)) if jws_ else \
+                           (lambda k: jwe_consume(alg, entry, copy.deepcopy(token), k, keymode, sender_pub))
         except Exception as e:
             # building an unsuitable key may itself be refused at import (e.g. use/key_ops contradiction): that is a rejection
             return {"_rejected_at_import": f"{type(e).__name__}"}
@@ -465,19 +486,48 @@ def run_warning(case) -> dict:
     f = {}
     # the same text as it comes out of a file or an environment variable: preceded by a line break or blanks
     encs = {**encs, **{n + "+leading-newline": b"\n" + d for n, d in encs.items()}, **{n + "+leading-blanks": b"  \r\n" + d for n, d in encs.items()}}
+    from joserfc import jws, jwt
+    from joserfc.jwk import JWKRegistry
+    tok = rjws.make_compact(b'{"alg":"HS256"}', b'{"a":1}', "HS256", {"kty": "oct", "k": b"irrelevant-secret-irrelevant-secret"})
+    # every way a caller's octets / text can become a symmetric key; the raw-key paths of the JWS / JWT functions included
+    paths = {"OctKey.import_key": lambda v: OctKey.import_key(v),
+             "JWKRegistry.import_key": lambda v: JWKRegistry.import_key(v, "oct"),
+             "jws.serialize_compact(raw key)": lambda v: jws.serialize_compact({"alg": "HS256"}, b"x", v),
+             "jws.serialize_compact(callable -> raw key)": lambda v: jws.serialize_compact({"alg": "HS256"}, b"x", lambda obj: v),
+             "jws.deserialize_compact(raw key)": lambda v: jws.deserialize_compact(tok, v),
+             "jwt.encode(raw key)": lambda v: jwt.encode({"alg": "HS256"}, {"a": 1}, v),
+             "jwt.decode(raw key)": lambda v: jwt.decode(tok, v)}
+
+    def warned(fn, v):
+        with warnings.catch_warnings(record=True) as w:
+            warnings.simplefilter("always")
+            try:
+                fn(v)
+            except Exception:
+                pass
+        return {(x.category.__name__, str(x.message)) for x in w}
+    # what the same call says about an ordinary secret: a warning every raw key gets does not flag anything
+    ordinary = {pn: {a: warned(fn, b"an-ordinary-shared-secret-of-some-length".decode() if a else b"an-ordinary-shared-secret-of-some-length") for a in (False, True)}
+                for pn, fn in paths.items()}
     for name, data in encs.items():
         for as_str in (False, True):
-            with warnings.catch_warnings(record=True) as w:
-                warnings.simplefilter("always")
-                try:
-                    OctKey.import_key(data.decode() if as_str else data)
-                    raised = False
-                except Exception:
-                    raised = True
-            if not raised and not w:
-                f[f"C06:asymmetric-key-text-imported-as-oct-without-warning:{name}"] = \
-                    f"OctKey.import_key accepted {name} text of a {refkey['kty']} {refkey.get('crv', '')} key ({data[:30]!r}...) without any warning"
-            f["_n"] = f.get("_n", 0) + 1
+            for pn, fn in paths.items():
+                if pn != "OctKey.import_key" and ("+leading" in name) != (case["seed"] % 2 == 0):
+                    continue
+                raised = False
+                with warnings.catch_warnings(record=True) as w:
+                    warnings.simplefilter("always")
+                    try:
+                        fn(data.decode() if as_str else data)
+                    except Exception as e:
+                        # the token is not keyed with this text: a failed verification says nothing; a refused import / signature is a flag
+                        raised = "deserialize" not in pn and "decode" not in pn
+                got = {(x.category.__name__, str(x.message)) for x in w}
+                if not raised and not (got - ordinary[pn][as_str]):
+                    f[f"C06:asymmetric-key-text-imported-as-oct-without-warning:{name.split('+')[0]}:{pn.split('(')[0]}"] = \
+                        (f"{pn} took {name} text of a {refkey['kty']} {refkey.get('crv', '')} key ({data[:30]!r}...) as a symmetric secret without a warning "
+                         f"(beyond what an ordinary secret gets: {sorted(ordinary[pn][as_str])!r})")
+                f["_n"] = f.get("_n", 0) + 1
     return f
 
 
